@@ -1,5 +1,6 @@
 """C14 — request parsing accepts exactly well-formed requests and round-trips them."""
 from .base import *
+import httpcanon
 
 METHODS = [b"GET", b"HEAD", b"POST", b"PUT", b"DELETE", b"CONNECT", b"OPTIONS", b"TRACE", b"PATCH"]
 VERS = [b"HTTP/0.9", b"HTTP/1.0", b"HTTP/1.1", b"HTTP/2.0"]
@@ -15,7 +16,7 @@ def hx(b):
 class P(Prop):
     ID = "C14"
     THEOREMS = ["C14_roundtrip", "C14_accept", "C14_request_line_accepts", "C14_reject_non_utf8", "C14_reject_request_line", "C14_request_line_rejects",
-                "C14_request_line_accept_shape", "C14_no_panic", "C14_lookup_ci", "C14_lookup_first", "C14_nonvacuous"]
+                "C14_request_line_accept_shape", "C14_no_panic", "C14_lookup_ci", "C14_lookup_first", "C14_nonvacuous", "C14_F1_witness"]
     COQ_TARGETS = ["theories/Props/C14.vo", "theories/Extract.vo"]
     N_QUICK = 4000
     N_THOROUGH = 120000
@@ -97,6 +98,9 @@ class P(Prop):
                 out.append("gethdr %s %s" % (hspec, hx(q)))
         return out
 
+    def classify(self, line, out, sig):
+        return {"request-line-with-empty-target-accepted": "C14-F1"}.get(sig)
+
     def oracle(self, line, out):
         f = strip_meta(line).split(" ")
         if out is None or out.startswith("CRASH") or out.startswith("PANIC") or " | PANIC" in (out or ""):
@@ -119,14 +123,16 @@ class P(Prop):
                 return None if out == "ERR" else "non-utf8-request-line-accepted"
             if any(c in s for c in CASE_HAZARD):
                 return None
-            parts = s.strip().split(" ")      # str.trim + two split_once(" ")
-            t = s.strip()
+            t = httpcanon.rust_trim(s)      # str::trim, then two split_once(" ")
             wellformed = False
             if t.count(" ") >= 2:
                 m, rest = t.split(" ", 1); u, ver = rest.split(" ", 1)
                 wellformed = m.upper().encode() in METHODS and ver.upper().encode() in VERS and u != "" and " " not in ver
             if not wellformed and out != "ERR":
-                # an empty target ("GET  HTTP/1.1") is a target-less line; everything else listed as near miss must be rejected
+                # a line whose target is empty ("GET  HTTP/1.1": two blanks) is incomplete, but accepted: class C14-F1, pinned by the
+                # repository's own test request::tests::test_request_empty_request_uri.  Every other near miss must be rejected
+                if t.count(" ") >= 2 and m.upper().encode() in METHODS and u == "" and ver.upper().encode() in VERS and " " not in ver:
+                    return "request-line-with-empty-target-accepted"
                 return "malformed-request-line-accepted"
             if wellformed and out == "ERR":
                 # the head must be valid UTF-8 for the accept clause: only the request line is decisive for Err
